@@ -31,6 +31,9 @@ func init() {
 		"vnote":        func(e *Exec, a []Value) Value { e.notes = append(e.notes, a[0].(Str).Conc()); return nil },
 		"vconcrete":    func(e *Exec, a []Value) Value { x := a[0].(Int); return normInt(Int{W: x.W, Sg: x.Sg, C: e.concretize(x)}) },
 		"vfreeze":      primFreeze,
+		"vengineOnly":  func(e *Exec, a []Value) Value { return nil },
+		"vtmpdir":      func(e *Exec, a []Value) Value { return cs("dir.d") },
+		"vtouch":       func(e *Exec, a []Value) Value { return nil },
 		"veqstr":       func(e *Exec, a []Value) Value { return e.strEq(a[0].(Str), a[1].(Str)) },
 		"vsymstr":      primSymStr,
 		"vscannerSplit": primScannerSplit,
